@@ -221,6 +221,12 @@ func (n *Namespace) add(c *serverConn, auth json.RawMessage) (*serverSocket, err
 
 	err = n.runMiddlewares(socket, handshake)
 	if err != nil {
+		// The socket is refused. A middleware (or the restoration of the session) may have joined it to rooms:
+		// leave them, and make sure that the socket cannot join any other (a middleware can keep the socket).
+		socket.joinMu.Lock()
+		socket.join = func(room ...Room) {}
+		socket.joinMu.Unlock()
+		socket.leaveAll()
 		return nil, err
 	}
 
